@@ -83,6 +83,28 @@ func runC17CallbackFault(c *mon.Case) {
 	rng := c.Rng
 	pass := eng.Entropy(rng)
 	keyC, keyS := eng.NewKey(rng), eng.NewKey(rng)
+	if c.Idx%48 == 20 {
+		// First pairing over the passphrase; the initiator's application
+		// fails to persist the auth payload it is handed. Whatever that
+		// does to the initiator's handshake, the responder has seen the
+		// whole exchange: afterwards both must name the same rendezvous
+		// (nobody moved, or both moved).
+		cfg := eng.HSConfig{CMin: 2, CMax: 2, SMin: byte(rng.Intn(3)), SMax: 2, PassC: pass, PassS: append([]byte{}, pass...), Auth: []byte("macaroon"), KeyC: keyC, KeyS: keyS, FailAuthCBC: 1}
+		r := eng.RunHandshake(cfg)
+		if r.C.NewErr != nil || r.S.NewErr != nil {
+			c.Shard.Inconc("machine construction failed")
+			return
+		}
+		sc, e1 := r.C.CD.SID()
+		ss, e2 := r.S.CD.SID()
+		rep := map[string]any{"kind": "F", "callback_fails_on": "client (auth data, first pairing)", "client_err": fmt.Sprint(r.C.Err), "server_err": fmt.Sprint(r.S.Err)}
+		if e1 != nil || e2 != nil || sc != ss || r.C.CD.HandshakePattern().Name != r.S.CD.HandshakePattern().Name {
+			c.Shard.Violate("sid-diverges-after-auth-callback-fault", fmt.Sprintf("first pairing with the initiator's auth-data callback failing once: afterwards the client names rendezvous %x.. (%s), the server %x.. (%s) (errors %v / %v; handshake results %v / %v)", sc[:4], r.C.CD.HandshakePattern().Name, ss[:4], r.S.CD.HandshakePattern().Name, e1, e2, r.C.Err, r.S.Err), rep)
+		}
+		c.Shard.Count("callback_fault_handshakes", 1)
+		c.Shard.Eval(fmt.Sprintf("F|auth|%x", sc[:3]))
+		return
+	}
 	cfg := eng.HSConfig{KK: true, CMin: 2, CMax: 2, SMin: 2, SMax: 2, PassC: pass, PassS: pass, Auth: []byte("a"), KeyC: keyC, KeyS: keyS}
 	who := []string{"client", "server", "both"}[rng.Intn(3)]
 	if who != "server" {
